@@ -514,8 +514,8 @@ def run_amrgrid(c, tier, rng, rd, exe):
     # pointer, descent to the leaf containing the crossing point) refines the closed-form geometry on the finest lattice
     mcfgs = [dict(nb=(1, 1, 1), D=2, leaves="MC_Leaves1", starts="MC_Starts16", dmax=1)]
     if tier != "quick":
-        mcfgs = [dict(nb=(1, 1, 1), D=2, leaves="MC_Leaves1", starts="MC_Starts16", dmax=2),
-                 dict(nb=(2, 1, 1), D=1, leaves="MC_Leaves2", starts="MC_Starts8", dmax=3)]
+        mcfgs = [dict(nb=(1, 1, 1), D=2, leaves="MC_Leaves1", starts="MC_Starts16", dmax=1),
+                 dict(nb=(2, 1, 1), D=1, leaves="MC_Leaves2", starts="MC_Starts8", dmax=2)]
 
     def mjob(k):
         m = mcfgs[k]
